@@ -285,6 +285,20 @@ fn pick_token(n: u8, tokens: &[String], users: &[MUser]) -> (String, Option<usiz
     if tokens.is_empty() || n >= 240 {
         return ("f".repeat(64), None);
     }
+    // near misses of an issued token are unknown tokens: a prefix, the empty string, an extension, another letter case
+    if n >= 200 {
+        let base = &tokens[n as usize % tokens.len()];
+        let t = match n % 5 {
+            0 => base[..32].to_string(),
+            1 => String::new(),
+            2 => format!("{}0", base),
+            3 => base[..63].to_string(),
+            _ => base.to_ascii_uppercase(),
+        };
+        if !tokens.contains(&t) {
+            return (t, None);
+        }
+    }
     let tok = tokens[n as usize % tokens.len()].clone();
     // owner = the (non-removed) user whose current session carries this token
     let owner = users.iter().position(|u| !u.removed && u.session.as_ref().map_or(false, |s| s.0 == tok));
